@@ -688,4 +688,83 @@ theorem startLookup_once (s : DState) (ih : Bytes) (ann : Bool) (now : Nat) (h :
   unfold DState.startLookup
   rw [if_neg (by simp [h])]
 
+-- ---------------------------------------------------------------- what the handler's steps leave alone
+
+/-- the handler-side transitions do not touch the worker's state -/
+structure HFrame (s s' : DState) : Prop where
+  cfg : s'.cfg = s.cfg
+  phase : s'.phase = s.phase
+  attempt : s'.attempt = s.attempt
+  bseq : s'.bseq = s.bseq
+  stale : s'.stale = s.stale
+  pub : s'.pub = s.pub
+  version : s'.pubVersion = s.pubVersion
+  addr : s'.addr = s.addr
+
+theorem HFrame.refl (s : DState) : HFrame s s := ⟨rfl, rfl, rfl, rfl, rfl, rfl, rfl, rfl⟩
+
+theorem HFrame.trans {a b c : DState} (h1 : HFrame a b) (h2 : HFrame b c) : HFrame a c :=
+  ⟨h2.cfg.trans h1.cfg, h2.phase.trans h1.phase, h2.attempt.trans h1.attempt, h2.bseq.trans h1.bseq,
+   h2.stale.trans h1.stale, h2.pub.trans h1.pub, h2.version.trans h1.version, h2.addr.trans h1.addr⟩
+
+theorem refreshRound_hframe (s : DState) (now : Nat) : HFrame s (s.refreshRound now).1 ∧
+    (s.refreshRound now).1.waiters = s.waiters ∧ (s.refreshRound now).1.seenVersion = s.seenVersion := by
+  unfold DState.refreshRound
+  exact ⟨⟨rfl, rfl, rfl, rfl, rfl, rfl, rfl, rfl⟩, rfl, rfl⟩
+
+theorem startLookup_hframe (s : DState) (ih : Bytes) (ann : Bool) (now : Nat) : HFrame s (s.startLookup ih ann now).1 ∧
+    (s.startLookup ih ann now).1.waiters = s.waiters ∧ (s.startLookup ih ann now).1.seenVersion = s.seenVersion := by
+  unfold DState.startLookup
+  split
+  · exact ⟨⟨rfl, rfl, rfl, rfl, rfl, rfl, rfl, rfl⟩, rfl, rfl⟩
+  · exact ⟨⟨rfl, rfl, rfl, rfl, rfl, rfl, rfl, rfl⟩, rfl, rfl⟩
+
+theorem startQueued_hframe (s : DState) (now : Nat) : HFrame s (s.startQueued now).1 ∧
+    (s.startQueued now).1.waiters = s.waiters ∧ (s.startQueued now).1.seenVersion = s.seenVersion := by
+  unfold DState.startQueued
+  have hf := foldl_pred (fun (acc : DState × List DEv) => HFrame s acc.1 ∧ acc.1.waiters = s.waiters ∧ acc.1.seenVersion = s.seenVersion)
+    (fun (acc : DState × List DEv) q => ((acc.1.startLookup q.1 q.2 now).1, acc.2 ++ (acc.1.startLookup q.1 q.2 now).2))
+    (fun b a hb => by
+      have h := startLookup_hframe b.1 a.1 a.2 now
+      exact ⟨HFrame.trans hb.1 h.1, h.2.1.trans hb.2.1, h.2.2.trans hb.2.2⟩)
+    s.queued ({ s with queued := [] }, []) ⟨⟨rfl, rfl, rfl, rfl, rfl, rfl, rfl, rfl⟩, rfl, rfl⟩
+  exact hf
+
+theorem firstRefresh_hframe (s : DState) (now : Nat) : HFrame s (s.firstRefresh now).1 ∧
+    (s.firstRefresh now).1.waiters = s.waiters ∧ (s.firstRefresh now).1.seenVersion = s.seenVersion := by
+  unfold DState.firstRefresh
+  split
+  · exact ⟨HFrame.refl s, rfl, rfl⟩
+  · have h := refreshRound_hframe { s with refreshStarted := true } now
+    exact ⟨HFrame.trans (b := { s with refreshStarted := true }) ⟨rfl, rfl, rfl, rfl, rfl, rfl, rfl, rfl⟩ h.1, h.2.1, h.2.2⟩
+
+/-- handling a bootstrap completion: worker state untouched, nobody left waiting -/
+theorem bootstrapSuccess_hframe (s : DState) (now : Nat) : HFrame s (s.bootstrapSuccess now).1 ∧
+    (s.bootstrapSuccess now).1.waiters = [] ∧ (s.bootstrapSuccess now).1.seenVersion = s.seenVersion := by
+  unfold DState.bootstrapSuccess
+  simp only
+  have h1 := firstRefresh_hframe { s with waiters := [] } now
+  have h2 := startQueued_hframe { (({ s with waiters := [] } : DState).firstRefresh now).1 with bootstrappedOnce := true } now
+  refine ⟨HFrame.trans (HFrame.trans (b := { s with waiters := [] }) ⟨rfl, rfl, rfl, rfl, rfl, rfl, rfl, rfl⟩ h1.1)
+    (HFrame.trans (b := { (({ s with waiters := [] } : DState).firstRefresh now).1 with bootstrappedOnce := true }) ⟨rfl, rfl, rfl, rfl, rfl, rfl, rfl, rfl⟩ h2.1), ?_, ?_⟩
+  · rw [h2.2.1]; exact h1.2.1
+  · rw [h2.2.2]; exact h1.2.2
+
+theorem fireOne_hframe (s : DState) (now : Nat) (r : DState × List DEv) (hf : s.fireOne now = some r) :
+    HFrame s r.1 ∧ r.1.waiters = s.waiters ∧ r.1.seenVersion = s.seenVersion := by
+  unfold DState.fireOne at hf
+  cases hp : s.h.timer.pop with
+  | none => simp [hp] at hf
+  | some pe =>
+    obtain ⟨timer, e⟩ := pe
+    simp only [hp] at hf
+    split at hf
+    · split at hf
+      · simp only [Option.some.injEq] at hf; subst hf
+        have h := refreshRound_hframe { s with h := { s.h with timer := timer } } now
+        exact ⟨HFrame.trans (b := { s with h := { s.h with timer := timer } }) ⟨rfl, rfl, rfl, rfl, rfl, rfl, rfl, rfl⟩ h.1, h.2.1, h.2.2⟩
+      · simp only [Option.some.injEq] at hf; subst hf
+        exact ⟨⟨rfl, rfl, rfl, rfl, rfl, rfl, rfl, rfl⟩, rfl, rfl⟩
+    · simp at hf
+
 end Btdht
